@@ -36,6 +36,7 @@ type c21ChunkCase struct {
 	Sessions []c21Session `json:"sessions"`
 	Damage   int          `json:"damage,omitempty"` // 0 none, 1 truncate, 2 flip one bit
 	Near     bool         `json:"near,omitempty"`   // position is relative to the end of a chunk
+	Hdr      bool         `json:"hdr,omitempty"`    // Pos enumerates the bits of the chunks' magic, size and hash fields: chunk Pos/192, byte Pos%192/8 (0-7 header, 8-23 hash), bit Pos%8
 	Pos      uint64       `json:"pos,omitempty"`
 	Append   bool         `json:"append,omitempty"` // the process that read the damaged file appends Then
 	Then     []int        `json:"then,omitempty"`
@@ -153,7 +154,16 @@ func (b *c21Backing) set(t vpT, d []byte) {
 	}
 }
 
+type c21PanicError struct{ v any }
+
+func (e c21PanicError) Error() string { return fmt.Sprintf("ReadNext panicked: %v", e.v) }
+
 func c21ReadAll(st *ChunkedStorage2) (chunks [][]byte, err error) {
+	defer func() {
+		if r := recover(); r != nil {
+			err = c21PanicError{r} // reported by the callers through t.Fatalf so that the case is saved
+		}
+	}()
 	for n := 0; ; n++ {
 		chunk, err := st.ReadNext(c21Magic)
 		if err != nil {
@@ -313,6 +323,16 @@ func c21Damage(t vpT, c c21ChunkCase, b *c21Backing, data []byte, chunks []c21Ch
 			pos = len(data) - 1
 		}
 	}
+	bitIdx := uint(c.Pos / 7 % 8)
+	if c.Hdr {
+		ch := chunks[int(c.Pos/192)%len(chunks)]
+		if by := int(c.Pos % 192 / 8); by < 8 {
+			pos = ch.start + by
+		} else {
+			pos = ch.end - 16 + (by - 8)
+		}
+		bitIdx = uint(c.Pos % 8)
+	}
 	var survivors int
 	var cleanEnd bool
 	what := ""
@@ -331,7 +351,7 @@ func c21Damage(t vpT, c c21ChunkCase, b *c21Backing, data []byte, chunks []c21Ch
 			cls["truncate-at-chunk-boundary"] = true
 		}
 	case 2:
-		bit := byte(1) << (c.Pos / 7 % 8)
+		bit := byte(1) << bitIdx
 		data[pos] ^= bit
 		for _, ch := range chunks {
 			if ch.end <= pos {
@@ -342,6 +362,10 @@ func c21Damage(t vpT, c c21ChunkCase, b *c21Backing, data []byte, chunks []c21Ch
 		switch {
 		case pos < ch.start+8:
 			cls["flip-in-header"] = true
+			if ns := int(binary.LittleEndian.Uint32(data[ch.start+4:])); pos >= ch.start+4 && ns > ChunkSize && ch.start+8+ns+16 <= len(data) {
+				// the damaged size exceeds the hard limit (and the reader's buffer) but still fits into the file
+				cls["size-field-high-bit-flip-on-large-file"] = true
+			}
 		case pos >= ch.end-16:
 			cls["flip-in-hash"] = true
 		default:
@@ -355,6 +379,9 @@ func c21Damage(t vpT, c c21ChunkCase, b *c21Backing, data []byte, chunks []c21Ch
 	d.set(t, data)
 	st := d.open(t)
 	got, err := c21ReadAll(st)
+	if pe, ok := err.(c21PanicError); ok {
+		t.Fatalf("%s: %v (after %d chunks)", what, pe, len(got))
+	}
 	if len(got) > survivors {
 		t.Fatalf("%s: reload returned %d chunks, only %d saved chunks are undamaged", what, len(got), survivors)
 	}
@@ -437,6 +464,15 @@ func c21GenChunkCase() *rapid.Generator[c21ChunkCase] {
 		}
 		for n := rapid.IntRange(1, 3).Draw(t, "sessions"); n > 0; n-- {
 			c.Sessions = append(c.Sessions, c21Session{Mode: rapid.SampledFrom([]int{0, 0, 0, 1, 2}).Draw(t, "mode"), Items: c21GenLens("items").Draw(t, "items")})
+		}
+		if rapid.IntRange(0, 11).Draw(t, "large") == 0 { // 2.5-4 MiB in one session, then a flip in a header/hash field
+			c.Sessions = []c21Session{{Mode: 0, Items: c21LargeItems(rapid.Uint64Range(0, 1<<30).Draw(t, "large-seed"))}}
+			c.Damage, c.Hdr = 2, true
+			c.Pos = rapid.Uint64Range(0, 192*8-1).Draw(t, "hdr-bit")
+			if rapid.Bool().Draw(t, "size-field") {
+				c.Pos = c.Pos/192*192 + uint64(rapid.IntRange(4*8, 8*8-1).Draw(t, "size-bit"))
+			}
+			return c
 		}
 		c.Damage = rapid.SampledFrom([]int{0, 1, 1, 2, 2}).Draw(t, "damage")
 		if c.Damage != 0 {
@@ -523,6 +559,75 @@ func TestVerifC21ChunksEnum(t *testing.T) {
 		}
 	}
 	t.Logf("enumerated %d damaged variants of a %d-byte file", n, size)
+}
+
+// c21LargeItems returns item lengths that add up to 2.5-4 MiB (several full chunks).
+func c21LargeItems(seed uint64) []int {
+	x := seed*0x9E3779B97F4A7C15 + 0x1234567
+	next := func(n int) int {
+		x ^= x << 13
+		x ^= x >> 7
+		x ^= x << 17
+		return int(x>>33) % n
+	}
+	target := 2_621_440 + next(1_572_864) // 2.5 MiB + [0, 1.5 MiB)
+	var l []int
+	for total := 0; total < target; {
+		n := 1 + next(ChunkSize/2-5)
+		switch next(4) {
+		case 0:
+			n = next(300)
+		case 1:
+			n = ChunkSize/2 - 5 - next(4)
+		}
+		l = append(l, n)
+		total += n + 4
+	}
+	return l
+}
+
+// TestVerifC21ChunksHeaderEnum: on files of 2.5-4 MiB every bit of the magic, size and hash field of every
+// chunk is flipped (chunks x 24 x 8 variants per file). A damaged size field above the hard limit that still
+// fits into the file must give an error after the intact prefix, not an overrun of the reader's buffer.
+func TestVerifC21ChunksHeaderEnum(t *testing.T) {
+	ev := vpNewEv(t, "C21", "chunks")
+	seed := uint64(1)
+	if s := os.Getenv("VERIF_SEED"); s != "" {
+		_, _ = fmt.Sscan(s, &seed)
+	}
+	files := 4
+	if os.Getenv("VERIF_TIER") == "thorough" {
+		files = 16
+	}
+	n := 0
+	for f := 0; f < files; f++ {
+		base := c21ChunkCase{Seed: seed + uint64(f), Sessions: []c21Session{{Mode: 0, Items: c21LargeItems(seed*131 + uint64(f))}}, Damage: 2, Hdr: true}
+		b := &c21Backing{}
+		var want [][]byte
+		for i, l := range base.Sessions[0].Items {
+			want = append(want, c21Item(base.Seed, i, l))
+		}
+		c21Write(t, b.open(t), want)
+		chunks := c21CheckClean(t, b, want, "header enum base")
+		if len(b.buf) < 2_621_440 || len(chunks) < 3 {
+			t.Fatalf("harness: file of %d bytes in %d chunks is too small", len(b.buf), len(chunks))
+		}
+		shared := append([]byte(nil), b.buf...)
+		for p := uint64(0); p < uint64(len(chunks))*192; p++ {
+			c := base
+			c.Pos = p
+			vpRunCase(t, "C21", "chunks", c, func() {
+				cls := map[string]bool{"enumerated-header-bit": true, "multi-chunk": true, "large-file": true}
+				c21Damage(t, c, b, shared, chunks, want, nil, cls) // flips in place
+				ch := chunks[p/192]
+				copy(shared[ch.start:ch.start+8], b.buf[ch.start:])
+				copy(shared[ch.end-16:ch.end], b.buf[ch.end-16:])
+				ev.Case(true, c, c21Keys(cls)...)
+			})
+			n++
+		}
+	}
+	t.Logf("enumerated %d header/hash bit flips on %d large files", n, files)
 }
 
 // c21SolvePos finds Pos with Pos%size == p and (Pos/7)%8 == bit.
